@@ -19,7 +19,6 @@ import (
 	"github.com/nspcc-dev/neo-go/pkg/crypto/hash"
 	"github.com/nspcc-dev/neo-go/pkg/smartcontract/callflag"
 	"github.com/nspcc-dev/neo-go/pkg/smartcontract/nef"
-	"github.com/nspcc-dev/neo-go/pkg/smartcontract/scparser"
 	"github.com/nspcc-dev/neo-go/pkg/util"
 	"github.com/nspcc-dev/neo-go/pkg/vm"
 	"github.com/nspcc-dev/neo-go/pkg/vm/opcode"
@@ -55,6 +54,41 @@ const (
 	sysFreeze  = 0xF1 // replace the top item by an immutable deep copy
 )
 
+// gMagic: top byte of the ids of the harness's "charging" syscalls (gas-edge and
+// control-transfer parts): [datoshi, index into gasPico, flags, gMagic]. The
+// handler does nothing but charge, through the VM's own AddDatoshi and
+// AddPicoGas (both are always called, a zero amount included; flag bit 0: the
+// picoGAS part first), mirroring the amounts into the harness's own sum.
+const gMagic = 0xC2
+
+var gasPico = [...]int64{0, 1, picoPerDat - 1, picoPerDat, picoPerDat + 1}
+
+func gid(datoshi, picoIdx, flags int) []byte {
+	return []byte{byte(datoshi), byte(picoIdx), byte(flags), gMagic}
+}
+
+func charge(v *vm.VM, id uint32, own *int64) error {
+	d, pi, fl := int64(id&0xff), int(id>>8&0xff), id>>16&0xff
+	if pi >= len(gasPico) || fl > 1 {
+		return fmt.Errorf("unknown syscall %#x", id)
+	}
+	p := gasPico[pi]
+	if fl&1 != 0 {
+		*own += p
+		if err := v.AddPicoGas(p); err != nil {
+			return err
+		}
+		*own += d * picoPerDat
+		return v.AddDatoshi(d)
+	}
+	*own += d * picoPerDat
+	if err := v.AddDatoshi(d); err != nil {
+		return err
+	}
+	*own += p
+	return v.AddPicoGas(p)
+}
+
 // loader returns the SYSCALL handler for a table of loadable scripts.
 //
 //	mode 0  LoadScriptWithHash (one return value expected, own stack)
@@ -68,6 +102,9 @@ const (
 func loader(tbl []loaded, own *int64) func(v *vm.VM, id uint32) error {
 	return func(v *vm.VM, id uint32) error {
 		idx, nargs, mode := int(id&0xff), int(id>>8&0xff), int(id>>16&0xff)
+		if id>>24 == gMagic {
+			return charge(v, id, own)
+		}
 		if id>>24 != xMagic {
 			return fmt.Errorf("unknown syscall %#x", id)
 		}
@@ -474,7 +511,7 @@ func xscriptPart(s *stats, reps []int) (out xOut) {
 			}
 			script := ca.script(ce.field == 3)
 			name := ca.String() + "x" + ce.String()
-			opts := execOpts{mark: -1, tbl: tbl, boundsBy: by}
+			opts := execOpts{mark: -1, tbl: tbl, boundsBy: by, lowLimits: true}
 			r0 := s.fullCheck(part, name, nil, script, deepBase, 20000, w, opts, true)
 			progs.Inc()
 			if ca.reps == 1 && ca.hold == 2 && i%97 == 0 {
@@ -497,7 +534,7 @@ func loadedBounds(tbl []loaded) map[util.Uint160][]bool {
 			return
 		}
 		b, ok := boundaries(script)
-		if !ok || scparser.IsScriptCorrect(script, nil) != nil {
+		if err, pan := staticCheck(script, nil); !ok || err != nil || pan != nil {
 			b = nil
 		}
 		by[h] = b
